@@ -3,18 +3,20 @@
    in : nine `|`-separated sections; elements inside a section are `;`-separated, fields are
         space-separated, lists are `,`-separated with `-` for the empty list / `None`:
           head        `<v2Allowed 0|1> <programme|-> <selected complementary objects>`
-          programmes  `<contents>`
-          contents    `<objects>`
-          objects     `<objects> <packs> <tracks (s = silent)> <complementary> <params 0|1>`
+          programmes  `<contents> <avs refs (tokens)>`
+          contents    `<objects> <avs refs>`
+          objects     `<objects> <packs> <tracks (s = silent)> <complementary> <params 0|1> <own avs tokens>`
           packs       `<type 1..5> <channels> <packs> <encodePacks> <input|-> <output|-> <norm|-> <scr|->`
-          channels    `<type> <freq 0|1> <blocks>`  blocks `/`-separated, each `cart:eq:order:degree:norm:scr`
+          channels    `<type> <freq 0|1> <blocks>`  blocks `/`-separated, each
+                      `cart:eq:order:degree:norm:scr:outCh:coeffs`, coeffs `,`-separated `<input|->.<bad 0|1>` or `-`
           streams     `<channel|-> <pack|->`
           trackFormats `<stream|->`
           trackUIDs   `<trackIndex|-> <pack|-> <trackFormat|-> <channel|->`
           oracle      per `allocate_packs` call `;`-separated: solutions `/`-separated, each a `,` list of
-                      pack indices (`-` = no solution, `e` = a solution with no packs)
-   out: `items:<n>` | `adm:<kind>` | `internal:<kind>` | `unmodelled` | `no-oracle`, then ` mt=<0|1>`
-        (1 iff the multitree validation accepting the document implies the unique-path property);
+                      indices into `_PackAllocator.packs` (`-` = no solution, `e` = a solution with no packs)
+   out: `items:<n>` | `adm:<kind>` | `internal:<kind>` | `no-oracle`, then ` mt=<0|1>`
+        (1 iff the multitree validation accepting the document implies the unique-path property; proved as
+        `multitree_sound`, still evaluated);
         `bad-op` for a malformed or ill-scoped line. -/
 import Earverif.Model.Validate
 import Earverif.Driver.Util
@@ -44,28 +46,36 @@ def typeDef? (s : String) : Option TypeDef :=
 def elems (s : String) : List (List String) :=
   ((s.splitOn ";").map words).filter (fun ws => !ws.isEmpty)
 
+def coeff? (s : String) : Option Coeff :=
+  match s.splitOn "." with
+  | [i, b] => do some { input := ← optNat i, badParam := ← bool? b }
+  | _ => none
+
+def coeffs? (s : String) : Option (List Coeff) :=
+  if s == "-" then some [] else (s.splitOn ",").mapM coeff?
+
 def block? (s : String) : Option Block :=
   match s.splitOn ":" with
-  | [c, e, o, g, n, sc] => do
+  | [c, e, o, g, n, sc, oc, cs] => do
     some { cartMismatch := ← bool? c, equation := ← bool? e, order := ← optInt o, degree := ← optInt g,
-           norm := ← optNat n, scr := ← optNat sc }
+           norm := ← optNat n, scr := ← optNat sc, outCh := ← optNat oc, coeffs := ← coeffs? cs }
   | _ => none
 
 def blocks? (s : String) : Option (List Block) :=
   if s == "-" then some [] else (s.splitOn "/").mapM block?
 
 def programme? : List String → Option Programme
-  | [c] => do some { contents := ← natList c }
+  | [c, a] => do some { contents := ← natList c, avs := ← natList a }
   | _ => none
 
 def content? : List String → Option Content
-  | [o] => do some { objects := ← natList o }
+  | [o, a] => do some { objects := ← natList o, avs := ← natList a }
   | _ => none
 
 def obj? : List String → Option Obj
-  | [o, p, t, c, pa] => do
+  | [o, p, t, c, pa, a] => do
     some { objects := ← natList o, packs := ← natList p, tracks := ← trackList t, comps := ← natList c,
-           params := ← bool? pa }
+           params := ← bool? pa, avs := ← natList a }
   | _ => none
 
 def pack? : List String → Option Pack
@@ -104,7 +114,6 @@ def showRes : R Nat → String
   | .ok n => s!"items:{n}"
   | .error (.adm k) => "adm:" ++ showAdm k
   | .error (.internal k) => "internal:" ++ showInt k
-  | .error .unmodelled => "unmodelled"
   | .error .noOracle => "no-oracle"
 
 def answer (line : String) : String :=
@@ -126,8 +135,12 @@ def answer (line : String) : String :=
         trackUIDs := ← (elems atus).mapM atu? }
       let oracle ← (elems orc).mapM oracleEntry?
       if !d.wellScoped then none
+      if !d.avsOwned then none
       if !(allLt sel d.objects.length) then none
-      if !(oracle.all (fun sols => sols.all (fun sol => allLt sol d.packs.length))) then none
+      let npat := match patterns d with
+        | .ok pats => pats.length
+        | .error _ => 0
+      if !(oracle.all (fun sols => sols.all (fun sol => allLt sol npat))) then none
       let res := selectItems d prog sel (fun i => oracle[i]?)
       let mt := match validateMultitree d with
         | .ok _ => uniquePaths d
